@@ -571,6 +571,37 @@ func stringLess(rsi, rsj string, desc bool) int {
 	return b
 }
 
+// naturalOrder compares two cells that both hold an int64 literal, a float64
+// literal or a time anchor by value, returning a negative, zero or positive
+// number. The returned boolean is false if the cells hold anything else.
+func naturalOrder(ci, cj *Cell) (int, bool) {
+	sign := func(less, greater bool) int {
+		switch {
+		case less:
+			return -1
+		case greater:
+			return 1
+		}
+		return 0
+	}
+	if ci.T != nil && cj.T != nil {
+		return sign(ci.T.Before(*cj.T), ci.T.After(*cj.T)), true
+	}
+	if ci.L != nil && cj.L != nil && ci.L.Type() == cj.L.Type() {
+		switch ci.L.Type() {
+		case literal.Int64:
+			vi, _ := ci.L.Int64()
+			vj, _ := cj.L.Int64()
+			return sign(vi < vj, vi > vj), true
+		case literal.Float64:
+			vi, _ := ci.L.Float64()
+			vj, _ := cj.L.Float64()
+			return sign(vi < vj, vi > vj), true
+		}
+	}
+	return 0, false
+}
+
 // CellString create a pointer for the provided string.
 func CellString(s string) *string {
 	return &s
@@ -610,6 +641,13 @@ func rowLess(ri, rj Row, c SortConfig) bool {
 		si, sj = ci.T.Format(time.RFC3339Nano), cj.T.Format(time.RFC3339Nano)
 	}
 	l := stringLess(si, sj, cfg.Desc)
+	if n, ok := naturalOrder(ci, cj); ok {
+		// Numbers and time anchors are not ordered like their text.
+		l = n
+		if cfg.Desc {
+			l = -l
+		}
+	}
 	if l < 0 {
 		return true
 	}
